@@ -56,6 +56,9 @@ type Step struct {
 	Clone     string `json:"clone,omitempty"`      // "", "before" (before the handler writes), "after"
 	NewTree   int    `json:"new_tree,omitempty"`   // >0: register a route (with that many params) first, so the tree and its pool are replaced
 	DropTree  bool   `json:"drop_tree,omitempty"`  // delete a previously added extra route first
+	// SameQuery: the request carries the fixed query string "s=same" instead of its token, so that consecutive requests have
+	// byte-identical raw queries; every handler edits the url.Values it got from QueryParams, which are its request's own.
+	SameQuery bool `json:"same_query,omitempty"`
 }
 
 type Case struct {
@@ -77,6 +80,7 @@ type exp struct {
 	size      int
 	clone     string
 	viaLookup bool
+	sameQuery bool
 }
 
 var tokRe = regexp.MustCompile(`t[0-9_]+x`)
@@ -163,11 +167,24 @@ func (h *harness) inspect(where string, c fox.Context, entry bool) *exp {
 			h.fail("%s: Param(%q) = %q, want %q", pre, k, got, want)
 		}
 	}
-	if got := c.QueryParam("q"); got != e.tok {
-		h.fail("%s: QueryParam(q) = %q, want %q", pre, got, e.tok)
+	qtok := e.tok
+	if e.sameQuery {
+		qtok = ""
+		if got := c.QueryParam("s"); got != "same" {
+			h.fail("%s: QueryParam(s) = %q, want %q", pre, got, "same")
+		}
 	}
-	if got := c.QueryParams().Get("r"); got != e.tok {
-		h.fail("%s: QueryParams()[r] = %q, want %q", pre, got, e.tok)
+	if got := c.QueryParam("q"); got != qtok {
+		h.fail("%s: QueryParam(q) = %q, want %q", pre, got, qtok)
+	}
+	if got := c.QueryParams().Get("r"); got != qtok {
+		h.fail("%s: QueryParams()[r] = %q, want %q", pre, got, qtok)
+	}
+	if entry {
+		// no handler of this request has edited the values yet: "mut" can only be another request's edit
+		if got := c.QueryParams()["mut"]; len(got) != 0 {
+			h.fail("%s: QueryParams()[mut] = %q on entry: the request URL has no such key, an earlier request's handler had set it on its own values", pre, got)
+		}
 	}
 	if got := c.Header("X-Tok"); got != e.tok {
 		h.fail("%s: Header(X-Tok) = %q, want %q", pre, got, e.tok)
@@ -212,6 +229,7 @@ func (h *harness) respond(where string) fox.HandlerFunc {
 		if e.clone == "before" {
 			h.takeClone(c, e, "before")
 		}
+		c.QueryParams().Set("mut", e.tok) // the values of this request are the handler's to edit
 		c.SetHeader("X-Resp", e.tok)
 		c.Writer().WriteHeader(e.status)
 		_, _ = c.Writer().Write([]byte(strings.Repeat("b", e.size)))
@@ -320,7 +338,11 @@ func buildStep(s Step, tok string, n int) (*http.Request, *exp) {
 	case "options":
 		method, path, e.scope = "OPTIONS", "/p/"+tok+"/x/"+tok, fox.OptionsHandler
 	}
-	req := httptest.NewRequest(method, "http://"+host+path+"?q="+tok+"&r="+tok, nil)
+	query := "?q=" + tok + "&r=" + tok
+	if s.SameQuery {
+		query, e.sameQuery = "?s=same", true
+	}
+	req := httptest.NewRequest(method, "http://"+host+path+query, nil)
 	req.Header.Set("X-Tok", tok)
 	if s.CloneWith {
 		req.Header.Set("X-Clonewith", "1")
@@ -362,6 +384,7 @@ func (h *harness) run(s Step, tok string, n int) {
 			h.fail("Lookup context for token %s does not expose the writer that was supplied", tok)
 		}
 		h.inspect("context returned by Lookup", cc, true)
+		cc.QueryParams().Set("mut", tok)
 		if e.clone != "" {
 			fw.Header().Set("X-Resp", tok)
 			h.takeClone(cc, e, "before")
@@ -419,7 +442,7 @@ func (h *harness) recheckClones() {
 				h.fail("%s: Request() is not a copy", pre)
 				return
 			}
-			if !strings.Contains(cl.Request().URL.Path, e.tok) || cl.QueryParam("q") != e.tok || cl.Header("X-Tok") != e.tok {
+			if !strings.Contains(cl.Request().URL.Path, e.tok) || (cl.QueryParam("q") != e.tok && !e.sameQuery) || (e.sameQuery && cl.QueryParam("s") != "same") || cl.Header("X-Tok") != e.tok {
 				h.fail("%s: request data path=%q q=%q X-Tok=%q", pre, cl.Request().URL.Path, cl.QueryParam("q"), cl.Header("X-Tok"))
 			}
 			if cl.Pattern() != e.pattern || cl.Scope() != e.scope {
@@ -471,6 +494,7 @@ func checkCase(c *Case, prefix string) error {
 func genStep(t *rapid.T) Step {
 	s := Step{Kind: gen.Pick(t, kinds, "kind")}
 	s.CloneWith = gen.Chance(t, 1, 4, "clonewith")
+	s.SameQuery = gen.Chance(t, 1, 3, "samequery")
 	if gen.Chance(t, 1, 3, "clone") {
 		s.Clone = gen.Pick(t, []string{"before", "after"}, "when")
 	}
